@@ -196,8 +196,7 @@ def voxel_from_binvox(rle_data, shape, translate=None, scale=1.0, axis_order="xz
 
     if axis_order == "xzy":
         perm = (0, 2, 1)
-        shape = tuple(shape[p] for p in perm)
-        encoding = encoding.reshape(shape).transpose(perm)
+        encoding = encoding.reshape(tuple(shape[p] for p in perm)).transpose(perm)
     elif axis_order is None or axis_order == "xyz":
         encoding = encoding.reshape(shape)
     else:
